@@ -14,12 +14,14 @@ from . import core
 
 GEN = os.path.join(core.LEAN, "RedisGoModel", "Generated", "Commands.lean")
 GEN_SKEL = os.path.join(core.LEAN, "RedisGoModel", "Generated", "Skeletons.lean")
+GEN_REPLY = os.path.join(core.LEAN, "RedisGoModel", "Generated", "ReplySites.lean")
+REPLY_PROP = os.path.join(core.LEAN, "RedisGoModel", "Props", "C03Sites.lean")
 GEN_SITES = os.path.join(core.LEAN, "RedisGoModel", "Generated", "Sites.lean")
 SITES_PROP = os.path.join(core.LEAN, "RedisGoModel", "Props", "C04Sites.lean")
 GEN_ARM = os.path.join(core.LEAN, "RedisGoModel", "Generated", "ReadyArm.lean")
 EXPECT = os.path.join(core.VERIF, "expectations", "facts.json")
 # which properties lean on which fact
-USERS = {"F1": ["C04"], "F3": ["C04"], "F2": ["C05", "C06", "C13"], "F4": ["C08"], "F5": ["C15"]}
+USERS = {"F1": ["C04"], "F3": ["C04"], "F6": ["C03"], "F2": ["C05", "C06", "C13"], "F4": ["C08"], "F5": ["C15"]}
 _cache = {}
 
 
@@ -78,8 +80,16 @@ def site_lists(facts):
     return const, rel, dyn, calls
 
 
+def nil_lists(facts):
+    """fact F3, second part: (guarded, unguarded) non-`,ok` assertions and dereferences of possibly-nil lookup results — no line numbers"""
+    ns = facts.get("nil_sites") or []
+    row = lambda n: (n["file"], n["func"], n["kind"] + " " + n["text"] + ((" <- " + n["from"]) if n.get("from") else ""))
+    return sorted(row(n) for n in ns if n["class"] == "guarded"), sorted(row(n) for n in ns if n["class"] != "guarded")
+
+
 def write_sites(facts):
     const, rel, dyn, calls = site_lists(facts)
+    nil_g, nil_u = nil_lists(facts)
     q5 = lambda r: "(%s, %s, %d, %d, %d)" % (_lstr(r[0]), _lstr(r[1]), r[2], r[3], r[4])
     src = ("/-! GENERATED on every check run from /repo's source by the harness `facts` engine (harness/sites.go) — do not edit.\n"
            "Fact F3: the panic-capable expressions of memdb, server, resp, util, raftexample with what the dominating guards guarantee. -/\n"
@@ -96,7 +106,14 @@ def write_sites(facts):
            _llist(["(%s, %s, %d, %d)" % (_lstr(r[0]), _lstr(r[1]), r[2], r[3]) for r in calls]) + "\n\n"
            "/-- sites for which no bound could be established: (file, function, kind and normalised source text) — no line numbers -/\n"
            "def dynamicSites : List (String × String × String) := " +
-           _llist(["(%s, %s, %s)" % (_lstr(r[0]), _lstr(r[1]), _lstr(r[2])) for r in dyn]) + "\n\nend Generated\n")
+           _llist(["(%s, %s, %s)" % (_lstr(r[0]), _lstr(r[1]), _lstr(r[2])) for r in dyn]) + "\n\n"
+           "/-- type assertions without `, ok` and dereferences (`p.f`, `*p`, `p.m()`) of a local assigned from a call of a function that can return\n"
+           "    nil, where the value is known present on every path (its `ok` flag was tested true, or `p != nil`): (file, function, kind text <- callee) -/\n"
+           "def nilGuardedSites : List (String × String × String) := " +
+           _llist(["(%s, %s, %s)" % (_lstr(r[0]), _lstr(r[1]), _lstr(r[2])) for r in nil_g]) + "\n\n"
+           "/-- … and those with no such guard -/\n"
+           "def nilUnguardedSites : List (String × String × String) := " +
+           _llist(["(%s, %s, %s)" % (_lstr(r[0]), _lstr(r[1]), _lstr(r[2])) for r in nil_u]) + "\n\nend Generated\n")
     old = open(GEN_SITES).read() if os.path.exists(GEN_SITES) else None
     if old != src:
         os.makedirs(os.path.dirname(GEN_SITES), exist_ok=True)
@@ -133,6 +150,16 @@ def check_sites(facts):
             broken["calls"].append(c)
             msgs.append("%s %s line %d: `%s` may pass a command shorter than %d word(s) to an executor (Sites.executor_entry_safe)" % (
                 c["file"], c["func"], c["line"], c["text"], emin))
+    expn = _expected_list(SITES_PROP, "expectedNilUnguarded")
+    if expn is not None:
+        have, want = collections.Counter(nil_lists(facts)[1]), collections.Counter(expn)
+        for row, n in sorted((have - want).items()):
+            broken["new_dynamic"].append(dict(file=row[0], func=row[1], text=row[2], lines=[]))
+            msgs.append("%s %s: `%s` asserts / dereferences a value that may be absent or nil with no `, ok` / `!= nil` test on every path before it, and is not "
+                        "in the reviewed inventory (Sites.nil_unguarded_inventory)" % row)
+        for row, n in sorted((want - have).items()):
+            broken["gone_dynamic"].append(dict(file=row[0], func=row[1], text=row[2]))
+            msgs.append("%s %s: reviewed site `%s` is no longer unguarded in the source (Sites.nil_unguarded_inventory; remove it from expectedNilUnguarded)" % row)
     exp = expected_dynamic()
     if exp is not None:
         have = collections.Counter(site_lists(facts)[2])
@@ -149,6 +176,75 @@ def check_sites(facts):
         for row, n in sorted((want - have).items()):
             broken["gone_dynamic"].append(dict(file=row[0], func=row[1], text=row[2]))
             msgs.append("%s %s: reviewed site `%s` is no longer in the source (Sites.dynamic_inventory; remove it from expectedDynamic)" % row)
+    return not msgs, msgs, broken
+
+
+def reply_lists(facts):
+    """fact F6: (non-literal line-reply sites, the client-derived ones among them, the ones tainted only through an error value)"""
+    rs = facts.get("reply_sites") or []
+    row = lambda r: (r["file"], r["func"], r["text"])
+    return sorted(row(r) for r in rs), sorted(row(r) for r in rs if r["client"]), sorted(row(r) for r in rs if r.get("via_err"))
+
+
+def write_reply_sites(facts):
+    nonlit, client, viaerr = reply_lists(facts)
+    q3 = lambda r: "(%s, %s, %s)" % (_lstr(r[0]), _lstr(r[1]), _lstr(r[2]))
+    src = ("/-! GENERATED on every check run from /repo's source by the harness `facts` engine (harness/sites.go) — do not edit.\n"
+           "Fact F6: calls of the constructors whose payload goes out as a LINE (resp.MakeStringData, MakeErrorData, MakeWrongNumberArgs,\n"
+           "MakePlainData, and StringData/ErrorData/PlainData literals) in memdb, server, resp, util, raftexample. -/\n"
+           "namespace Generated\n\n"
+           "/-- how many such calls have a compile-time constant payload -/\n"
+           "def literalLineReplies : Nat := %d\n\n" % int(facts.get("reply_literal") or 0) +
+           "/-- the calls whose payload is NOT a compile-time constant: (file, function, normalised source text) — no line numbers -/\n"
+           "def nonLiteralLineReplies : List (String × String × String) := " + _llist([q3(r) for r in nonlit]) + "\n\n"
+           "/-- … those among them whose payload is derived from the command words (cmd[i], string(cmd[i]), strings.ToLower(…), concatenation,\n"
+           "    fmt.Sprintf, locals assigned from these) -/\n"
+           "def clientDerivedLineReplies : List (String × String × String) := " + _llist([q3(r) for r in client]) + "\n\n"
+           "/-- … those that mention an error VALUE returned by a call that received command words, where the callee is not shown to return\n"
+           "    only errors with constant texts -/\n"
+           "def errorDerivedLineReplies : List (String × String × String) := " + _llist([q3(r) for r in viaerr]) + "\n\nend Generated\n")
+    old = open(GEN_REPLY).read() if os.path.exists(GEN_REPLY) else None
+    if old != src:
+        os.makedirs(os.path.dirname(GEN_REPLY), exist_ok=True)
+        open(GEN_REPLY, "w").write(src)
+
+
+def _expected_list(path, name):
+    try:
+        src = open(path).read()
+    except OSError:
+        return None
+    m = re.search(r"def %s[^\n]*:= \[\n(.*?)\]\n" % name, src, re.S)
+    if not m:
+        return None
+    un = lambda x: x.replace('\\"', '"').replace("\\\\", "\\")
+    return [tuple(un(g) for g in t) for t in re.findall(r'^\s*\("((?:[^"\\]|\\.)*)", "((?:[^"\\]|\\.)*)", "((?:[^"\\]|\\.)*)"\)', m.group(1), re.M)]
+
+
+def check_replies(facts):
+    """what Lean will say about Generated/ReplySites.lean, with the offending calls named: (ok, [messages], structured)"""
+    msgs, broken = [], dict(client=[], new=[], gone=[])
+    if facts.get("reply_sites") is None:
+        return False, ["reply-site extraction failed: %s" % facts.get("sites_error", "no reply_sites in the extractor's output")], broken
+    lines = collections.defaultdict(list)
+    for r in facts["reply_sites"]:
+        lines[(r["file"], r["func"], r["text"])].append(str(r["line"]))
+        if r["client"]:
+            broken["client"].append(r)
+            msgs.append("%s %s line %d: `%s` puts bytes of the command words into a line reply (simple string / error): an argument containing CR LF "
+                        "breaks the framing (ReplySites.no_client_bytes_in_line_replies)" % (r["file"], r["func"], r["line"], r["text"]))
+    exp = _expected_list(REPLY_PROP, "expectedNonLiteral")
+    if exp is not None:
+        have, want = collections.Counter(reply_lists(facts)[0]), collections.Counter(exp)
+        for row, n in sorted((have - want).items()):
+            if any(r["client"] and (r["file"], r["func"], r["text"]) == row for r in facts["reply_sites"]):
+                continue
+            broken["new"].append(dict(file=row[0], func=row[1], text=row[2]))
+            msgs.append("%s %s (line %s): `%s` builds a line reply from a non-constant payload and is not in the reviewed inventory "
+                        "(ReplySites.inventory)" % (row[0], row[1], "/".join(lines[row]), row[2]))
+        for row, n in sorted((want - have).items()):
+            broken["gone"].append(dict(file=row[0], func=row[1], text=row[2]))
+            msgs.append("%s %s: reviewed call `%s` is no longer in the source (ReplySites.inventory; remove it from expectedNonLiteral)" % row)
     return not msgs, msgs, broken
 
 
@@ -179,6 +275,7 @@ def regenerate(R):
     write_generated(facts)
     write_sites(facts)
     write_skeletons(facts)
+    write_reply_sites(facts)
     exp = json.load(open(EXPECT)) if os.path.exists(EXPECT) else {}
     diffs = {}
     sk, esk = facts.get("skeletons", {}), exp.get("skeletons", {})
@@ -197,8 +294,9 @@ def regenerate(R):
         good, msgs, broken = check_sites(facts)
         const, rel, dyn, calls = site_lists(facts)
         R.oblige("fact F3: %d constant-bound + %d variable-offset index/slice/division sites lie within the length their dominating guards guarantee, "
-                 "%d executor calls pass a non-empty command, %d unguarded sites equal the reviewed inventory (regenerated into Generated/Sites.lean; "
-                 "closed in Lean by Props/C04Sites)" % (len(const), len(rel), len(calls), len(dyn)), "facts", good, "; ".join(msgs)[:900])
+                 "%d executor calls pass a non-empty command, %d unguarded sites equal the reviewed inventory; of the non-`,ok` assertions / dereferences of "
+                 "possibly-nil lookup results %d are guarded by a presence / nil test, the %d others equal a reviewed list (regenerated into Generated/Sites.lean; "
+                 "closed in Lean by Props/C04Sites)" % ((len(const), len(rel), len(calls), len(dyn)) + tuple(len(x) for x in nil_lists(facts))), "facts", good, "; ".join(msgs)[:900])
         R.extra["sites"] = dict(const=len(const), rel=len(rel), dynamic=len(dyn), executor_calls=len(calls),
                                 by_kind=dict(collections.Counter(s["kind"] + "/" + s["class"] for s in facts.get("sites") or [])))
         if not good:
@@ -206,8 +304,20 @@ def regenerate(R):
             R.facts_broken.append(("F3", msgs))
             diffs["F3"] = msgs
             R.sites_broken = broken
+    if R.prop in USERS["F6"]:
+        good, msgs, broken = check_replies(facts)
+        nonlit, client, viaerr = reply_lists(facts)
+        R.oblige("fact F6: of the line-reply constructor calls in the source (%d with a constant payload) the %d with a non-constant payload equal the "
+                 "reviewed inventory and none is built from the command words (regenerated into Generated/ReplySites.lean; closed in Lean by Props/C03Sites)"
+                 % (int(facts.get("reply_literal") or 0), len(nonlit)), "facts", good, "; ".join(msgs)[:900])
+        R.extra["reply_sites"] = dict(literal=int(facts.get("reply_literal") or 0), non_literal=len(nonlit), client_derived=len(client), error_derived=len(viaerr))
+        if not good:
+            ok = False
+            R.facts_broken.append(("F6", msgs))
+            diffs["F6"] = msgs
+            R.replies_broken = broken
     for fid, props in USERS.items():
-        if R.prop not in props or fid in ("F1", "F3"):
+        if R.prop not in props or fid in ("F1", "F3", "F6"):
             continue
         good = fid not in diffs
         what = {"F2": "CheckTTL / lock-call skeleton of every registered executor equals the recorded one (%d executors; also closed in Lean: "
